@@ -244,26 +244,32 @@ func (m *StringifiedMessage) encode(d *Decoder, sb *strings.Builder, tagType byt
 }
 
 func writeEscapeStr(sb *strings.Builder, str string) {
+	// The empty string and strings that start like a number would not be
+	// read back as strings without quotes.
+	needQuote := str == "" || isNumber(str[0]) || str[0] == '-' || str[0] == '+' || str[0] == '.'
 	for _, v := range []byte(str) {
 		if !isAllowedInUnquotedString(v) {
-			// need quote
-			dc := strings.Count(str, `"`)
-			sc := strings.Count(str, `'`)
-			if dc > sc {
-				sb.WriteString("'")
-				if _, err := strings.NewReplacer(`'`, `\'`, `\`, `\\`).WriteString(sb, str); err != nil {
-					panic(err)
-				}
-				sb.WriteString("'")
-			} else {
-				sb.WriteString(`"`)
-				if _, err := strings.NewReplacer(`"`, `\"`, `\`, `\\`).WriteString(sb, str); err != nil {
-					panic(err)
-				}
-				sb.WriteString(`"`)
-			}
-			return
+			needQuote = true
+			break
 		}
 	}
-	sb.WriteString(str)
+	if !needQuote {
+		sb.WriteString(str)
+		return
+	}
+	dc := strings.Count(str, `"`)
+	sc := strings.Count(str, `'`)
+	if dc > sc {
+		sb.WriteString("'")
+		if _, err := strings.NewReplacer(`'`, `\'`, `\`, `\\`).WriteString(sb, str); err != nil {
+			panic(err)
+		}
+		sb.WriteString("'")
+	} else {
+		sb.WriteString(`"`)
+		if _, err := strings.NewReplacer(`"`, `\"`, `\`, `\\`).WriteString(sb, str); err != nil {
+			panic(err)
+		}
+		sb.WriteString(`"`)
+	}
 }
